@@ -359,14 +359,6 @@ int reb_simulation_remove_particle(struct reb_simulation* const r, int index, in
     }
     if (r->integrator == REB_INTEGRATOR_MERCURIUS){
         keep_sorted = 1; // Force keep_sorted for hybrid integrator
-        struct reb_integrator_mercurius* rim = &(r->ri_mercurius);
-        if (rim->N_allocated_dcrit>0 && index<(int)rim->N_allocated_dcrit){
-            for (unsigned int i=0;i<r->N-1;i++){
-                if ((int)i>=index){
-                    rim->dcrit[i] = rim->dcrit[i+1];
-                }
-            }
-        }
         reb_integrator_ias15_reset(r);
         if (r->ri_mercurius.mode==1){
             struct reb_integrator_mercurius* rim = &(r->ri_mercurius);
@@ -443,6 +435,15 @@ int reb_simulation_remove_particle(struct reb_simulation* const r, int index, in
         if (r->tree_root){
 		    reb_simulation_error(r, "REBOUND cannot remove a particle a tree and keep the particles sorted. Did not remove particle.");
 		    return 0;
+        }
+        if (r->integrator == REB_INTEGRATOR_MERCURIUS){
+            // dcrit[i] belongs to particle i: shift it together with the particles, and only the part that exists
+            // (particles added since the last step have no dcrit yet).
+            struct reb_integrator_mercurius* rim = &(r->ri_mercurius);
+            const unsigned int N_dcrit = r->N < rim->N_allocated_dcrit ? r->N : rim->N_allocated_dcrit;
+            for (unsigned int i=index; i+1<N_dcrit; i++){
+                rim->dcrit[i] = rim->dcrit[i+1];
+            }
         }
 	    r->N--;
         if(r->free_particle_ap){
